@@ -3,6 +3,7 @@ C20 - boot sends the complete image carrying this call's options only.
 Property theorems; helper lemmas are in RigModel/Lemmas/C20.lean.
 -/
 import RigModel.Lemmas.C20
+import RigModel.Lemmas.C20Spec
 set_option linter.unusedSimpArgs false
 set_option linter.unusedVariables false
 
@@ -78,6 +79,41 @@ theorem config_area (c : Call) (opts : Dict) (fs : List Field) (hd : c.ImageDoma
   have d := bootImage_drop c.image packed h512 hl
   exact ⟨a, b, d, bootImage_config c.image packed h512 hl, by simp [imageOK, a, b, d]⟩
 
+/-- **Struct packing.**  For a well-formed table (integer fields inside the struct, pairwise
+disjoint) whose defaults fit their fields, `Struct.pack` succeeds, returns `size` bytes, every
+field's bytes are the little-endian (two's complement) encoding of its default and every byte
+not occupied by a field is zero. -/
+theorem struct_pack_spec (size : Nat) (fs : List Field) (ht : tableOK size fs = true)
+    (hv : ∀ f ∈ fs, valueFits f.pack f.default = true) :
+    ∃ packed, structPack size fs = .ok packed ∧ packed.length = size ∧
+      (∀ f ∈ fs, ∀ j, j < packWidth f.pack → packed[f.offset + j]? = some (leByte f.default j)) ∧
+      (∀ i, i < size → (∀ f ∈ fs, ¬ covers f i) → packed[i]? = some 0) := by
+  obtain ⟨hin, hd, _⟩ := tableOK_parts size fs ht
+  exact structPack_spec size fs (fun f hf => (hin f hf).2) hd hv
+
+/-- **Returned struct / options of this call.**  With distinct field names and options (and the
+three clock fields) naming fields, the two `update_default_values` calls produce the file's fields
+in file order where every default is: the clock value for `unix_time`/`boot_sig`/`root_chip`, else
+the value this call's options give, else the file's default. -/
+theorem returned_defaults (c : Call) (opts : Dict) (ht : tableOK c.svSize c.svFields = true)
+    (hv : optsValid c opts = true) :
+    finalFields c opts = .ok (c.svFields.map (fun f => { f with default := expectedDefault c opts f })) := by
+  obtain ⟨_, _, hn⟩ := tableOK_parts _ _ ht
+  obtain ⟨h1, h2, _⟩ := optsValid_parts c opts hv
+  exact finalFields_spec c opts hn h1 h2
+
+/-- **The property for one call.**  Inside the domain, with options that name fields and fit
+them, `boot` returns, and its datagrams and returned struct satisfy the executable specification
+`specOK` (the oracle the check evaluates on the implementation's output): sequence shape, image
+identical outside bytes 384…511, configuration area = expected values field by field and zero
+elsewhere, returned struct = expected values. -/
+theorem boot_meets_spec (c : Call) (opts : Dict) (hd : c.InDomain) (hv : optsValid c opts = true) :
+    ∃ fs, (bootCore c opts).result = .ok fs ∧
+      fs = c.svFields.map (fun f => { f with default := expectedDefault c opts f }) ∧
+      specOK c opts (sends (bootCore c opts).events) fs = true := by
+  obtain ⟨h1, h2⟩ := boot_meets_spec_aux c opts hd hv
+  exact ⟨_, h1, rfl, h2⟩
+
 /-- the repaired `boot` leaves the process state (default dictionary, caller dictionaries) alone -/
 theorem state_unchanged (s : State) (c : Call) : (bootStep false s c).1 = s := rfl
 
@@ -89,6 +125,14 @@ theorem history_independent (s : State) (cs : List Call) :
   induction cs with
   | nil => rfl
   | cons c cs ih => simp [runHistory, bootStep, ih]
+
+/-- **Every boot of every history meets the specification for its own options (repaired code).** -/
+theorem history_meets_spec (s : State) (cs : List Call) (k : Nat) (c : Call) (hk : cs[k]? = some c)
+    (hd : c.InDomain) (hv : optsValid c (dictUpdate (s.lookup c.sv) c.kwargs) = true) :
+    ∃ o fs, (runHistory false s cs)[k]? = some o ∧ o.result = .ok fs ∧
+      specOK c (dictUpdate (s.lookup c.sv) c.kwargs) (sends o.events) fs = true := by
+  obtain ⟨h1, h2⟩ := boot_meets_spec_aux c _ hd hv
+  exact ⟨_, _, by rw [history_independent, List.getElem?_map, hk]; rfl, h1, h2⟩
 
 /-- in a fresh process a call without `sv_overrides` uses exactly its keyword arguments,
 whatever was booted before -/
@@ -132,5 +176,14 @@ example : (wCall "b" []).ImageDomain ∧ ((bootCore (wCall "b" []) []).result.to
   unfold Call.ImageDomain
   simp only [wCall, List.length_replicate]
   decide
+
+/-- non-vacuity of `boot_meets_spec`: the bundled `sv` table, a SpiNN-3 preset and a 1 KiB image -/
+def exCall : Call :=
+  { host := "board", port := BOOT_PORT, image := List.replicate 1024 0, svSize := genSv.size,
+    svFields := genSv.fields, sv := none, kwargs := [("hw_ver", 3), ("led0", 0x502)],
+    t1 := 1443571200, t2 := 1443571201 }
+
+example : tableOK exCall.svSize exCall.svFields = true ∧ 128 ≤ exCall.svSize ∧
+    optsValid exCall (dictUpdate [] exCall.kwargs) = true := by decide +kernel
 
 end Rig.C20
